@@ -26,16 +26,17 @@ E == <<"E", "N", "D">>
 Set(m) == [k |-> "set", m |-> m]
 Work == [k |-> "work", m |-> <<>>]
 Raise == [k |-> "raise", m |-> <<>>]
+Interrupt == [k |-> "interrupt", m |-> <<>>]
 \* body families
-BodiesQ == {<<>>, <<Set(B)>>, <<Raise>>, <<Set(B), Raise>>, <<Set(B), Set(C)>>, <<Work, Set(B)>>}
+BodiesQ == {<<>>, <<Set(B)>>, <<Raise>>, <<Set(B), Raise>>, <<Set(B), Set(C)>>, <<Work, Set(B)>>, <<Interrupt>>, <<Set(B), Interrupt>>}
 BodiesT == BodiesQ \cup {<<Set(B), Set(C), Raise>>, <<Set(B), Work, Set(C)>>, <<Work, Raise>>, <<Set(B), Set(A), Set(B)>>}
 BodiesOne == {<<Set(B)>>}
-BodiesH == {<<Set(B)>>, <<Set(B), Raise>>, <<>>, <<Raise>>}
+BodiesH == {<<Set(B)>>, <<Set(B), Raise>>, <<>>, <<Raise>>, <<Interrupt>>}
 BodiesH2 == {<<Set(B), Set(C)>>, <<Work, Set(B)>>, <<Set(B), Raise>>}
 \* every body of up to 3 items, and every body of up to 2 items followed by a raise
 Items == {Set(B), Set(C), Work}
 SeqsTo(n) == UNION {[1..k -> Items] : k \in 0..n}
-BodiesAll == SeqsTo(3) \cup {Append(s, Raise) : s \in SeqsTo(2)}
+BodiesAll == SeqsTo(3) \cup {Append(s, Raise) : s \in SeqsTo(2)} \cup {Append(s, Interrupt) : s \in SeqsTo(2)}
 Ticks1 == {100}
 Ticks2 == {50, 100}
 
